@@ -5,6 +5,7 @@ import (
 	"go/ast"
 	"go/token"
 	"go/types"
+	"golang.org/x/tools/go/packages"
 	"strings"
 
 	"dstverif/load"
@@ -211,6 +212,7 @@ func (e *Env) RCursor(withFileOrder bool) {
 	e.Run.Floor("R-CURSOR", "line table stores", nLines, 2)
 	e.Run.Floor("R-CURSOR", "comment list stores", nComments, 2)
 	e.lineBreaksAdvance(c)
+	e.RSearchLoops(e.pkgs(load.PkgDecorator))
 	if withFileOrder {
 		e.restoreFileOrder(c)
 	}
@@ -283,7 +285,238 @@ func (e *Env) linesStore(c *schema.Ctx, info *types.Info, fd *ast.FuncDecl, s *a
 		}
 		return false, "offset adds " + ix + ", which is not the byte index of an enclosing range over the text"
 	}
+	// accumulator form: a local that starts at the base-relative cursor and is only ever moved
+	// forward (by a positive constant, a length, or the result of a string search)
+	if id, ok := call.Args[1].(*ast.Ident); ok {
+		if why := e.forwardAccumulator(c, info, fd, info.Uses[id]); why == "" {
+			return true, ""
+		} else if why != "-" {
+			return false, "line offsets are relative to the file base: " + why
+		}
+	}
 	return false, "line offsets are relative to the file base: expected int(r.cursor) - r.base [+ byte index]; found " + o
+}
+
+// forwardAccumulator: "" when v is first defined as int(r.cursor) - r.base and every other write
+// is v += E, v = v + E or v++ with E a positive constant, len(…) or a local holding the result of a
+// strings/bytes search; "-" when v is not of that form at all; otherwise what is wrong.
+func (e *Env) forwardAccumulator(c *schema.Ctx, info *types.Info, fd *ast.FuncDecl, v types.Object) string {
+	if v == nil {
+		return "-"
+	}
+	type write struct {
+		tok token.Token
+		rhs ast.Expr
+		pos token.Pos
+	}
+	var ws []write
+	ast.Inspect(fd.Body, func(n ast.Node) bool {
+		switch s := n.(type) {
+		case *ast.AssignStmt:
+			for i, l := range s.Lhs {
+				id, ok := l.(*ast.Ident)
+				if !ok || (info.Defs[id] != v && info.Uses[id] != v) {
+					continue
+				}
+				var rhs ast.Expr
+				if len(s.Lhs) == len(s.Rhs) {
+					rhs = s.Rhs[i]
+				}
+				ws = append(ws, write{s.Tok, rhs, s.Pos()})
+			}
+		case *ast.IncDecStmt:
+			if id, ok := s.X.(*ast.Ident); ok && info.Uses[id] == v {
+				ws = append(ws, write{s.Tok, nil, s.Pos()})
+			}
+		}
+		return true
+	})
+	if len(ws) < 2 || ws[0].tok != token.DEFINE || ws[0].rhs == nil {
+		return "-"
+	}
+	if init := c.ExprStr(ws[0].rhs); init != "int(r.cursor) - r.base" {
+		return "the running offset starts at `" + init + "`, not at int(r.cursor) - r.base"
+	}
+	isSearch := func(x ast.Expr) bool {
+		id, ok := ast.Unparen(x).(*ast.Ident)
+		if !ok {
+			return false
+		}
+		o := info.Uses[id]
+		found, other := false, false
+		ast.Inspect(fd.Body, func(n ast.Node) bool {
+			as, ok := n.(*ast.AssignStmt)
+			if !ok || len(as.Lhs) != len(as.Rhs) {
+				return true
+			}
+			for i, l := range as.Lhs {
+				lid, ok := l.(*ast.Ident)
+				if !ok || (info.Defs[lid] != o && info.Uses[lid] != o) {
+					continue
+				}
+				if cl, ok := as.Rhs[i].(*ast.CallExpr); ok && isStringSearch(calleeFunc(info, cl)) {
+					found = true
+				} else {
+					other = true
+				}
+			}
+			return true
+		})
+		return found && !other
+	}
+	forward := func(x ast.Expr) bool {
+		x = ast.Unparen(x)
+		if tv, ok := info.Types[x]; ok && tv.Value != nil {
+			return !strings.HasPrefix(tv.Value.String(), "-") && tv.Value.String() != "0"
+		}
+		if cl, ok := x.(*ast.CallExpr); ok {
+			if id, ok := cl.Fun.(*ast.Ident); ok && id.Name == "len" {
+				return true
+			}
+		}
+		return isSearch(x)
+	}
+	var sum func(x ast.Expr) bool // v + forward terms
+	sum = func(x ast.Expr) bool {
+		x = ast.Unparen(x)
+		if id, ok := x.(*ast.Ident); ok {
+			return info.Uses[id] == v
+		}
+		be, ok := x.(*ast.BinaryExpr)
+		if !ok || be.Op != token.ADD {
+			return false
+		}
+		return (sum(be.X) && forward(be.Y)) || (forward(be.X) && sum(be.Y))
+	}
+	for _, w := range ws[1:] {
+		ok := false
+		switch w.tok {
+		case token.INC:
+			ok = true
+		case token.ADD_ASSIGN:
+			ok = w.rhs != nil && forward(w.rhs)
+		case token.ASSIGN:
+			ok = w.rhs != nil && sum(w.rhs)
+		}
+		if !ok {
+			return "the running offset is rewritten at " + e.Prog.Pos(w.pos) + " by something other than a forward step"
+		}
+	}
+	return ""
+}
+
+func isStringSearch(fn *types.Func) bool {
+	if fn == nil || fn.Pkg() == nil {
+		return false
+	}
+	if p := fn.Pkg().Path(); p != "strings" && p != "bytes" {
+		return false
+	}
+	return strings.HasPrefix(fn.Name(), "Index") || strings.HasPrefix(fn.Name(), "LastIndex")
+}
+
+// RSearchLoops: a loop driven by a string search goes on for every hit. Wherever the result of
+// strings/bytes Index* is compared with a constant in a loop condition (or in the test of a
+// break/return directly inside a loop), the comparison separates "found" (>= 0) from "not found"
+// (-1); a comparison that treats a hit at index 0 as the end (i > 0, i >= 1, i != 0, i <= 0 …)
+// stops the scan early whenever the sought byte is the first one of the remaining text.
+func (e *Env) RSearchLoops(pkgs []*packages.Package) {
+	n := 0
+	for _, pkg := range pkgs {
+		info := pkg.TypesInfo
+		for _, fd := range load.AllFuncDecls(pkg) {
+			if fd.Body == nil {
+				continue
+			}
+			searchVar := func(x ast.Expr) bool {
+				id, ok := ast.Unparen(x).(*ast.Ident)
+				if !ok {
+					return false
+				}
+				o := info.Uses[id]
+				found := false
+				ast.Inspect(fd.Body, func(m ast.Node) bool {
+					as, ok := m.(*ast.AssignStmt)
+					if !ok || len(as.Lhs) != len(as.Rhs) {
+						return true
+					}
+					for i, l := range as.Lhs {
+						if lid, ok := l.(*ast.Ident); ok && (info.Defs[lid] == o || info.Uses[lid] == o) {
+							if cl, ok := as.Rhs[i].(*ast.CallExpr); ok && isStringSearch(calleeFunc(info, cl)) {
+								found = true
+							}
+						}
+					}
+					return true
+				})
+				return found
+			}
+			check := func(cond ast.Expr, where string) {
+				ast.Inspect(cond, func(m ast.Node) bool {
+					be, ok := m.(*ast.BinaryExpr)
+					if !ok {
+						return true
+					}
+					var cst ast.Expr
+					op := be.Op
+					switch {
+					case searchVar(be.X):
+						cst = be.Y
+					case searchVar(be.Y):
+						cst = be.X
+						op = map[token.Token]token.Token{token.LSS: token.GTR, token.GTR: token.LSS, token.LEQ: token.GEQ, token.GEQ: token.LEQ, token.EQL: token.EQL, token.NEQ: token.NEQ}[be.Op]
+					default:
+						return true
+					}
+					tv, ok := info.Types[cst]
+					if !ok || tv.Value == nil {
+						return true
+					}
+					n++
+					k := tv.Value.String()
+					good := (k == "0" && (op == token.GEQ || op == token.LSS)) || (k == "-1" && (op == token.EQL || op == token.NEQ || op == token.GTR || op == token.LEQ))
+					e.Run.Check("R-SCAN", fmt.Sprintf("%s: %s separates found from not found", load.FuncName(fd), where), e.Prog.Pos(be.Pos()), good,
+						"`"+types.ExprString(be)+"` treats a hit at index 0 like no hit: the scan stops early when the sought text is at the very start of what remains (two adjacent newlines, a leading separator)")
+					return true
+				})
+			}
+			var loops []ast.Node
+			ast.Inspect(fd.Body, func(m ast.Node) bool {
+				switch l := m.(type) {
+				case *ast.ForStmt:
+					loops = append(loops, l)
+					if l.Cond != nil {
+						check(l.Cond, "search-loop condition")
+					}
+				case *ast.RangeStmt:
+					loops = append(loops, l)
+				case *ast.IfStmt:
+					if len(loops) == 0 || len(l.Body.List) != 1 {
+						return true
+					}
+					inLoop := false
+					for _, lp := range loops {
+						if lp.Pos() <= l.Pos() && l.End() <= lp.End() {
+							inLoop = true
+						}
+					}
+					if !inLoop {
+						return true
+					}
+					switch b := l.Body.List[0].(type) {
+					case *ast.BranchStmt:
+						if b.Tok == token.BREAK {
+							check(l.Cond, "search-loop exit test")
+						}
+					case *ast.ReturnStmt:
+						check(l.Cond, "search-loop exit test")
+					}
+				}
+				return true
+			})
+		}
+	}
+	e.Run.Analysed("search-result comparisons in loops", n)
 }
 
 // lineBreaksAdvance: after every non-indexed line-table append the cursor advances (r.cursor++)
